@@ -84,7 +84,10 @@ def units(w):
                     it.check("post:that-environment-is-what-the-cache-holds(shared-by-later-importers)", cached.get(c["ident"]) is menv)
                 if c["parsed"]:
                     nm = c["parsed"][0][1]
-                    it.check("post:module-text-parsed-under-the-module's-name", nm == "mod:" + c["ident"] or (isinstance(nm, str) and nm.startswith("mod:")))
+                    # the file name carried by every token of the module (and hence by its errors and stack-trace entries) names the
+                    # module as required - not the alias it is bound to in this importer
+                    spec = sc.spec[:-4] if sc.spec.endswith(".ckl") else sc.spec
+                    it.check("post:module-text-parsed-under-the-module's-own-name(mod:<module>, whatever the alias)", nm == "mod:" + spec, detail=str(nm))
         u = Unit("nodes.py::NodeRequire.evaluate", setup, post, name=f"nodes.py::NodeRequire.evaluate[{sc}]",
                  allowed=("CklRuntimeError",), prepare=install(w, K, holder), replay=replay_graphs)
         u.abstractions = _Abs(holder)
